@@ -612,7 +612,7 @@ def standin(pid):
         if w:
             return w, ran
     if pid == "C12":
-        for fn in ["put", "put_digit_at", "fput", "shift", "push", "is_range_free", "is_free", "to_string"]:
+        for fn in ["put", "put_digit_at", "fput", "shift", "push", "is_range_free", "is_free", "to_string", ""]:  # "": any operation or query (peek, is_position_free, len, is_empty, is_null)
             w = find_witness(pid, {"unit": "ds", "fn": "DigitString::" + fn})
             if w:
                 ran.append({"search": "ds_ops/" + fn, "bound": "operation sequences of length <= 3 against an executable model", "found": True})
